@@ -543,6 +543,70 @@ fn named_part(ctx: &Ctx, job: usize, iters: u64) -> Stats {
 /// The connectives through the formula language under orderings handed in through the API (dense,
 /// 1-based, sparse, descending vectors; with names the ordering does not list): every spelling of
 /// every connective over x, y, z, judged pointwise by name.
+/// The compile-time route: `rsbdd::bdd!(…)` turns its tokens into a text and evaluates it. What
+/// the macro returns is compared with the reference meaning of the same tokens (as `stringify!`
+/// renders them here) — word spellings, symbol spellings, keywords.
+fn macro_forms(st: &mut Stats) {
+    macro_rules! probe {
+        ($st:expr, $($t:tt)+) => {{
+            let text = stringify!($($t)+);
+            let got = rsbdd::bdd!($($t)+);
+            judge_macro($st, text, got);
+        }};
+    }
+    fn judge_macro(st: &mut Stats, text: &str, got: anyhow::Result<Rc<BDD<NamedSymbol>>>) {
+        st.evals += 1;
+        st.bump("macro_forms");
+        let case = json!({"kind": "macro", "text": text});
+        let Ok(ast) = crate::refsyn::parse_text(text) else {
+            st.bump("macro_text_not_a_sentence(skipped)");
+            return;
+        };
+        let Ok((names, want)) = crate::refsem::eval_formula(&ast) else { return };
+        match got {
+            Ok(d) => match crate::conv::tt_of_named(&d, &names) {
+                Ok(t) if t == want => {
+                    st.nt.insert(mix(util::hash_str(text), 0x3ac80));
+                }
+                other => st.violate("c03.pointwise", "C03:macro:wrong-value".into(), format!("bdd!({}) evaluates to {} (table {:?}), pointwise the table over {:?} is {}", text, short(&d), other.map(|t| t.hex()), names, want.hex()), case),
+            },
+            Err(e) => st.violate("c03.pointwise", "C03:macro:rejected".into(), format!("bdd!({}) fails: {}", text, e), case),
+        }
+    }
+    probe!(st, a and b);
+    probe!(st, a or b);
+    probe!(st, a xor b);
+    probe!(st, a nor b);
+    probe!(st, a nand b);
+    probe!(st, a implies b);
+    probe!(st, a in b);
+    probe!(st, a iff b);
+    probe!(st, a eq b);
+    probe!(st, not a);
+    probe!(st, not a and not b);
+    probe!(st, if a then b else c);
+    probe!(st, if a and b then b or c else not c);
+    probe!(st, a & b);
+    probe!(st, a | b);
+    probe!(st, a ^ b);
+    probe!(st, a * b + c);
+    probe!(st, a => b);
+    probe!(st, a <= b);
+    probe!(st, a <=> b);
+    probe!(st, -a | !b);
+    probe!(st, -(a <= b) and (b implies a));
+    probe!(st, exists a # a and b);
+    probe!(st, forall a, b # a or c);
+    probe!(st, all a # any b # a iff b);
+    probe!(st, [a, b, c] >= 2 and not c);
+    probe!(st, [a, b] = [c]);
+    probe!(st, lfp x # a or x);
+    probe!(st, nu x # a and x);
+    probe!(st, true and false or a);
+    probe!(st, (a nand b) nor (b xor c));
+    probe!(st, "a comment" a and "another" b);
+}
+
 fn language_connectives(st: &mut Stats) {
     let orderings: [&[(&str, usize)]; 7] = [&[], &[("x", 0)], &[("x", 1)], &[("x", 0), ("z", 3)], &[("z", 4), ("x", 2)], &[("y", 7), ("x", 3), ("z", 5)], &[("z", 1), ("y", 0)]];
     let forms = [
@@ -656,8 +720,9 @@ pub fn run(ctx: &Ctx) -> (Stats, Spec) {
     st.merge(crate::report::merge_all(parts));
 
     language_connectives(&mut st);
+    macro_forms(&mut st);
     let spec = Spec {
-        rule: "exhaustive: every ordered pair (triple for ite) of Boolean functions over 3 (2) variables in every argument position, under 5 label configurations (adjacent, interleaved-disjoint, extreme indices incl. usize::MAX, overlapping, disjoint-nested); random: operands over 4-6 sparse labels built by random routes with overlapping/nested/disjoint supports, BDDEnv<usize>, BDDEnv<NamedSymbol> (ids that coincide when narrowed to 8, 16 or 32 bits) and an environment over a symbol type whose Hash writes nothing (every same-shape pair of diagrams collides); every spelling of every connective through the formula language under 7 API orderings (none, dense, 1-based, sparse, descending vectors, unlisted names); rounds with operands NOT built by the environment (plain unshared diagrams, dropped after use, thousands of rounds on one environment). distinct = (connective, operand tables, configuration); non-trivial = every operand non-constant. MANY VARIABLES: the same judgement on environments with 65-200 variables (more than a machine word of them), where operands are random DNFs and results are compared pointwise on 48 sampled assignments per case (biased towards the operands' cubes) and walked for order / reduction.".into(),
+        rule: "exhaustive: every ordered pair (triple for ite) of Boolean functions over 3 (2) variables in every argument position, under 5 label configurations (adjacent, interleaved-disjoint, extreme indices incl. usize::MAX, overlapping, disjoint-nested); random: operands over 4-6 sparse labels built by random routes with overlapping/nested/disjoint supports, BDDEnv<usize>, BDDEnv<NamedSymbol> (ids that coincide when narrowed to 8, 16 or 32 bits) and an environment over a symbol type whose Hash writes nothing (every same-shape pair of diagrams collides); every spelling of every connective through the formula language under 7 API orderings (none, dense, 1-based, sparse, descending vectors, unlisted names), the negation of every connective and every ordered pair of connectives, and 32 formulas through the compile-time `bdd!` macro (word and symbol spellings, keywords, comments); rounds with operands NOT built by the environment (plain unshared diagrams, dropped after use, thousands of rounds on one environment). distinct = (connective, operand tables, configuration); non-trivial = every operand non-constant. MANY VARIABLES: the same judgement on environments with 65-200 variables (more than a machine word of them), where operands are random DNFs and results are compared pointwise on 48 sampled assignments per case (biased towards the operands' cubes) and walked for order / reduction.".into(),
         assumptions: vec![
             "operands are diagrams produced by the same environment over a common variable order (the statement's precondition)".into(),
             "the value of a diagram is read by following T/F edges from the root (tt_of_bdd), independent of any engine operation".into(),
